@@ -15,7 +15,7 @@ RULE = ("random histories (as C12) in which invalid calls are injected at every 
         "after every raise the target's contents per interval, errors2 and missed values must be unchanged; non-trivial = history with "
         ">= 2 injected faults that raised on a target holding content; distinct by hash of the operation log")
 ASSUMPTIONS = [
-    "negative weights, free-arithmetics mode and zero divisors are outside the statement and not injected",
+    "negative weights are outside the statement and not injected; zero divisors, weights whose square overflows, and blocks of free arithmetics left by an exception are",
     "a lossless dtype promotion and zero-content bin growth before the raise are allowed (statement)",
 ]
 
